@@ -12,6 +12,27 @@ import (
 
 var poolSize = map[string]string{"ipfixBuffer": "IPFIXUDPSize", "sFlowBuffer": "SFlowUDPSize", "netflowV9Buffer": "NetflowV9UDPSize", "netflowV5Buffer": "NetflowV5UDPSize"}
 
+// newSource: the source text that decides what the pool's New makes: the composite literal itself and, when New names a
+// function of the same file instead of a closure, that function's body
+func newSource(f *ast.File, e ast.Expr) string {
+	src := exprString(e)
+	ast.Inspect(e, func(n ast.Node) bool {
+		kv, ok := n.(*ast.KeyValueExpr)
+		if !ok || exprString(kv.Key) != "New" {
+			return true
+		}
+		if id, ok := kv.Value.(*ast.Ident); ok {
+			for _, d := range f.Decls {
+				if fd, ok := d.(*ast.FuncDecl); ok && fd.Recv == nil && fd.Name.Name == id.Name && fd.Body != nil {
+					src += " " + exprString(fd.Body)
+				}
+			}
+		}
+		return true
+	})
+	return src
+}
+
 func genPools() {
 	files := []string{"vflow/ipfix.go", "vflow/ipfix_unix.go", "vflow/netflow_v9.go", "vflow/netflow_v5.go", "vflow/sflow.go", "vflow/sflow_unix.go"}
 	var rows []string
@@ -64,7 +85,7 @@ func genPools() {
 			if !isPool {
 				return true
 			}
-			src := exprString(as.Rhs[0])
+			src := newSource(f, as.Rhs[0])
 			good := strings.Contains(strings.Join(strings.Fields(src), ""), "make([]byte,opts."+want+")")
 			rows = append(rows, fmt.Sprintf("(%s, %s, %s, %v)", coqStr(file), coqStr(id.Name), coqStr("New"), good))
 			return true
@@ -79,7 +100,7 @@ func genPools() {
 				if !isPool || i >= len(vs.Values) {
 					continue
 				}
-				src := exprString(vs.Values[i])
+				src := newSource(f, vs.Values[i])
 				good := strings.Contains(strings.Join(strings.Fields(src), ""), "make([]byte,opts."+want+")")
 				rows = append(rows, fmt.Sprintf("(%s, %s, %s, %v)", coqStr(file), coqStr(id.Name), coqStr("New"), good))
 			}
